@@ -342,6 +342,29 @@ def r05_9(ctx, fx, which=("Reject", "DialPeer", "DialAddress")):
                    detail="the handle already returned Ok to the protocol; DialFailure report sites on the Err path: %s" % [fn.site(x) for x in reports if x in r])
 
 
+def r05_10(ctx, fx):
+    """the failure report names all dialed addresses: a dial by peer id can be spread over several transports; when the last of them
+    fails the manager sends ONE DialFailure to the protocols.  Its address list is built from the errors of all transports - the ones
+    parked in `opening_errors` merged with the last transport's - not from the last transport's errors alone."""
+    fn = ctx.fn(fx, TM + "next::{closure#0}", "R05.10")
+    if fn is None:
+        return
+    of = fn.calls(r"TransportManager::on_open_failure$")
+    ctx.anchor("R05.10", "next: on_open_failure", len(of), 1, cfg=fx.cfg)
+    for c in of:
+        region = fn.reach([c.node], after=True, stop=region_ends_of(fn, c.node))
+        merged = [m.node for m in fn.calls(r"HashMap(<.*>)?::remove$") if ".opening_errors" in fn.recv(m) and m.node in region]
+        reports = [(n, s_) for n, s_ in fn.aggregates(r"InnerTransportEvent$", "DialFailure") if n in region]
+        ctx.anchor("R05.10", "next/OpenFailure: DialFailure built for the protocols", len(reports), 1, cfg=fx.cfg)
+        for i, (n, s_) in enumerate(reports):
+            rv = s_["rv"]
+            o = rv["ops"][rv["fields"].index("addresses")] if "addresses" in rv.get("fields", []) else None
+            rs = guards.rootstrs(fn, o) if o is not None else set()
+            ok = bool(merged) and n not in fn.reach([c.node], after=True, avoid=merged, stop=region_ends_of(fn, c.node)) and any(x.endswith("HashMap::remove") for x in rs)
+            ctx.ob("R05.10", "next/OpenFailure:DialFailure#%d-names-the-addresses-of-all-transports" % i, ok, site=fn.site(n), cfg=fx.cfg,
+                   detail="opening_errors.remove before the report: %s; address roots %s" % (bool(merged), sorted(x for x in rs if "remove" in x or "extend" in x or "errors" in x)[:6]))
+
+
 def r05_5(ctx, fx):
     """PeerState transition tables (the per-variant answers of the small pure methods, read off the discriminant switches):
     can_dial answers Ok exactly for Disconnected{dial_record: None}; dial_* enter a dialing state only over can_dial() == Ok;
@@ -414,4 +437,5 @@ def run(ctx):
             r05_4(ctx, fx)
             r05_6(ctx, fx)
             r05_9(ctx, fx)
+            r05_10(ctx, fx)
             r05_5(ctx, fx)
